@@ -48,6 +48,9 @@ type XJump struct {
 	// RawBelow k > 0: the raw logical part of the allocator becomes rawLimit - k, rawLimit = 1 << (18 - suffix bits):
 	// the last k raw values whose differentiated logical part still fits the 18-bit field
 	RawBelow int `json:"raw_below,omitempty"`
+	// All: the local allocators of all dc-locations jump (then only the global allocator refuses the write-back of the
+	// collected maximum; otherwise a local allocator of another dc-location on another member refuses it first)
+	All bool `json:"all,omitempty"`
 }
 
 // XLose: dc-X loses its allocator leader. Kind dead: handed over to a member id that does not exist (the
@@ -143,6 +146,17 @@ func genCross(t *rapid.T) XCase {
 	}
 	// a few times: dc-X jumps ahead by d with max-gap-reset-ts g (d around and above g), a local request of dc-X,
 	// global requests (they fail while the collected maximum cannot be written back), then g is restored
+	// patterns are placed between steps of the basic program and never inside each other (an episode sets and
+	// restores cluster-wide settings)
+	nbase := len(c.Steps)
+	type placed struct {
+		at    int
+		steps []XStep
+	}
+	var pats []placed
+	insert := func(label string, pat []XStep) {
+		pats = append(pats, placed{rapid.IntRange(0, nbase).Draw(t, label), pat})
+	}
 	njump := rapid.IntRange(2, 3).Draw(t, "njump")
 	if thorough {
 		njump = rapid.IntRange(3, 6).Draw(t, "njump_t")
@@ -154,7 +168,8 @@ func genCross(t *rapid.T) XCase {
 			g = rapid.SampledFrom([]int{1000, 2000}).Draw(t, "gap")
 		}
 		dcx := rapid.IntRange(0, ndc-1).Draw(t, "jdc")
-		pat := []XStep{{Jump: &XJump{DC: dcx, AheadMs: d, GapMs: g}},
+		all := j == 0 || rapid.Bool().Draw(t, "jall")
+		pat := []XStep{{Jump: &XJump{DC: dcx, AheadMs: d, GapMs: g, All: all}},
 			{Par: []XReq{{DC: dcx, N: uint32(rapid.IntRange(1, 3).Draw(t, "jn"))}}}}
 		for k, ng := 0, rapid.IntRange(1, 3).Draw(t, "jglobals"); k < ng; k++ {
 			pat = append(pat, XStep{Par: []XReq{{DC: -1, N: uint32(rapid.SampledFrom([]int{1, 1, 5}).Draw(t, "jgn"))}}})
@@ -163,8 +178,7 @@ func genCross(t *rapid.T) XCase {
 			}
 		}
 		pat = append(pat, XStep{Jump: &XJump{GapMs: 0}}, XStep{Par: []XReq{{DC: -1, N: 1}}})
-		at := rapid.IntRange(0, len(c.Steps)).Draw(t, "jat")
-		c.Steps = append(c.Steps[:at], append(pat, c.Steps[at:]...)...)
+		insert("jat", pat)
 	}
 	// mixed switch: PD leadership moves to the member without enable-local-tso while dc-X is ahead; global requests must
 	// be refused (or synchronized) there; then leadership moves back
@@ -186,8 +200,7 @@ func genCross(t *rapid.T) XCase {
 					XStep{Par: []XReq{{DC: rapid.IntRange(0, ndc-1).Draw(t, "xldc"), N: 1}}})
 			}
 			pat = append(pat, XStep{Lead: "on"}, XStep{Par: []XReq{{DC: -1, N: 1}}}, XStep{Par: []XReq{{DC: dcx, N: 1}}})
-			at := rapid.IntRange(0, len(c.Steps)).Draw(t, "xat")
-			c.Steps = append(c.Steps[:at], append(pat, c.Steps[at:]...)...)
+			insert("xat", pat)
 		}
 	}
 	// dc-X sits d ahead with only k raw logical values left in its millisecond; global requests of count around k must
@@ -212,8 +225,7 @@ func genCross(t *rapid.T) XCase {
 		dcx := rapid.IntRange(0, ndc-1).Draw(t, "edc")
 		pat := []XStep{{Jump: &XJump{DC: dcx, AheadMs: rapid.SampledFrom([]int{50, 500, 1500}).Draw(t, "eahead"), RawBelow: k}},
 			{Par: []XReq{{DC: -1, N: uint32(n)}}}, {Par: []XReq{{DC: -1, N: 1}}}, {Par: []XReq{{DC: dcx, N: 1}}}}
-		at := rapid.IntRange(0, len(c.Steps)).Draw(t, "eat")
-		c.Steps = append(c.Steps[:at], append(pat, c.Steps[at:]...)...)
+		insert("eat", pat)
 	}
 	// dc-X (ahead by d, local timestamps issued) loses its allocator leader; 1-3 global requests while it has none
 	// (or a moving one); restore; local requests of dc-X and a global one
@@ -246,8 +258,19 @@ func genCross(t *rapid.T) XCase {
 			}
 			pat = append(pat, XStep{Restore: true}, XStep{Par: []XReq{{DC: l.DC, N: 1}}}, XStep{Par: []XReq{{DC: -1, N: 1}}},
 				XStep{Par: []XReq{{DC: l.DC, N: 2}}})
-			at := rapid.IntRange(0, len(c.Steps)).Draw(t, "lat")
-			c.Steps = append(c.Steps[:at], append(pat, c.Steps[at:]...)...)
+			insert("lat", pat)
+		}
+	}
+	base := c.Steps
+	c.Steps = nil
+	for i := 0; i <= nbase; i++ {
+		for _, p := range pats {
+			if p.at == i {
+				c.Steps = append(c.Steps, p.steps...)
+			}
+		}
+		if i < nbase {
+			c.Steps = append(c.Steps, base[i])
 		}
 	}
 	if thorough && len(c.PDs) >= 2 && rapid.Bool().Draw(t, "resign") {
@@ -438,6 +461,14 @@ func (x *xcluster) target(dc string) string {
 	return x.cluster.GetServer(name).GetAddr()
 }
 
+func (x *xcluster) holders(dcs []string) map[string]string {
+	out := map[string]string{}
+	for _, dc := range dcs {
+		out[dc] = x.holder(dc)
+	}
+	return out
+}
+
 func (x *xcluster) isOff(name string) bool {
 	s := x.cluster.GetServer(name)
 	return s != nil && !s.GetConfig().EnableLocalTSO
@@ -584,8 +615,14 @@ func (x *xcluster) jump(dcs []string, j *XJump) int {
 	moved := 0
 	if j.AheadMs > 0 {
 		x.setGap(0)
-		dc := dcs[j.DC%len(dcs)]
-		if leader := x.cluster.GetLeader(); leader != "" {
+		which := []string{dcs[j.DC%len(dcs)]}
+		if j.All {
+			which = dcs
+		}
+		for _, dc := range which {
+			if x.cluster.GetLeader() == "" {
+				break
+			}
 			name := x.holder(dc)
 			if srv := x.cluster.GetServer(name); name != "" && srv != nil {
 				if al, err := srv.GetTSOAllocatorManager().GetAllocator(dc); err == nil {
@@ -807,6 +844,10 @@ func runCross(c XCase) (vkit.Info, error) {
 	}
 	xmu.Lock()
 	x := getCluster(c.PDs)
+	if x == nil {
+		// one more attempt: a start-up that fails under load (port clash, slow election) is the usual reason
+		x = getCluster(c.PDs)
+	}
 	xmu.Unlock()
 	if x == nil {
 		info.Inconclusive = true
@@ -863,6 +904,12 @@ func runCross(c XCase) (vkit.Info, error) {
 	id := 0
 	resigned := false
 	jumps := 0
+	debug := os.Getenv("VERIF_X_DEBUG") != ""
+	dbg := func(f string, a ...interface{}) {
+		if debug {
+			fmt.Printf("X-DEBUG "+f+"\n", a...)
+		}
+	}
 	lostPending := false
 	hasOff := false
 	for _, d := range c.PDs {
@@ -908,7 +955,9 @@ func runCross(c XCase) (vkit.Info, error) {
 			info.ClassIf(resigned, "pd-leader-moved")
 		}
 		if st.Jump != nil {
-			jumps += x.jump(dcs, st.Jump)
+			mv := x.jump(dcs, st.Jump)
+			jumps += mv
+			dbg("step %d jump %+v moved=%d leader=%s holders=%v", si, *st.Jump, mv, x.cluster.GetLeader(), x.holders(dcs))
 			continue
 		}
 		if st.Lead != "" {
@@ -922,6 +971,7 @@ func runCross(c XCase) (vkit.Info, error) {
 			}
 			lostPending = false
 			info.Class("pd-leader-with-local-tso-" + st.Lead)
+			dbg("step %d lead %s -> leader %s", si, st.Lead, x.cluster.GetLeader())
 			continue
 		}
 		if st.Lose != nil {
@@ -929,6 +979,7 @@ func runCross(c XCase) (vkit.Info, error) {
 				info.Class("dc-loses-allocator-leader-" + st.Lose.Kind)
 				lostPending = lostPending || st.Lose.Kind != "gather"
 			}
+			dbg("step %d lose %+v leader=%s holders=%v", si, *st.Lose, x.cluster.GetLeader(), x.holders(dcs))
 			continue
 		}
 		if st.Restore {
@@ -962,6 +1013,13 @@ func runCross(c XCase) (vkit.Info, error) {
 			id++
 		}
 		wg.Wait()
+		if debug {
+			for _, e := range ses.history() {
+				if e.Step == si && e.DC == tso.GlobalDCLocation {
+					dbg("  %s", e)
+				}
+			}
+		}
 	}
 	if excludedConc > 0 {
 		info.Exclude(keyGlobalConcurrent)
